@@ -517,9 +517,13 @@ namespace awkward {
       }
       if (out == -1) {
         try {
+          if (key.empty()  ||
+              key.find_first_not_of("0123456789") != std::string::npos) {
+            throw std::invalid_argument("not a field index");
+          }
           out = (int64_t) std::stoi(key);
         }
-        catch (std::invalid_argument err) {
+        catch (std::logic_error err) {
           throw std::invalid_argument(
             std::string("key ") + quote(key)
             + std::string(" does not exist (not in record)") + FILENAME(__LINE__));
